@@ -276,8 +276,8 @@ func TestC05(t *testing.T) {
 			"Non-trivial history: a SetLinks that both adds and removes or has duplicates, a count reaching zero, or a delete of a linked entity. Distinct by hash of the history JSON.",
 		Assumptions: []string{"negative counts are not generated (no caller does; semantics unspecified)",
 			"link collections are declared over AddFkSetSymbol symbols (storage path = [symbol name]), as everywhere in the repository; an entity has child data in at most one child store of its parent"},
-		Gen:         genC05, Run: runC05,
-		QuickChecks: 500, ThoroughFactor: 20,
+		Gen: genC05, Run: runC05,
+		QuickChecks: 1000, ThoroughFactor: 10,
 		ExhaustiveQuick: exhaustiveC05(3, 3),
 		Exhaustive:      exhaustiveC05(4, 4),
 	})
